@@ -321,7 +321,9 @@ impl C20 {
             if let Some((pt, pm, pw)) = &prev {
                 if slot == 23 {
                     let dw: i64 = w.values().sum::<i64>() - pw.values().sum::<i64>();
-                    for k in kinds.iter().chain(["timer"].iter()) {
+                    // (cached-record counts are bounded absolutely by R1 - a wanted record that expired and is announced again
+                    // is cached again without being "new" - so growth between samples is judged for the timers only)
+                    for k in ["timer"].iter() {
                         let grow = m.get(*k).copied().unwrap_or(0) - pm.get(*k).copied().unwrap_or(0);
                         let allow = if *k == "timer" { 12 * dw.max(0) + 16 } else { dw.max(0) + 2 };
                         if grow > allow {
